@@ -109,7 +109,9 @@ def gen_case(rng, tier, index):
     case["workload"] = "align"
     case["auto_align"] = True
     case["align_seed"] = rng.randrange(1 << 30)
-    if case["fmt"] == "pe" and rng.random() < 0.4:
+    if (case["fmt"] == "pe" and rng.random() < 0.4) or (
+            case["fmt"] == "elf" and
+            random.Random(f"elf-notable:{index}").random() < 0.15):
         # the way PE modules usually come: no alignment table at all (the
         # first patch with an alignment directive creates it)
         case["alignment_table"] = False
